@@ -31,6 +31,7 @@ import (
 var c08Menu = []string{
 	"", "a", "a b", "\r", "\n", "\r\n", "x\ry", "x\nQUIT :bye", "x\r\nQUIT :bye", "\nQUIT",
 	"\x00", "\x01", strings.Repeat("a", 600), strings.Repeat("a", 600) + "\nQUIT",
+	"a%",
 }
 
 // c08Method describes one exported command method: its verb on the wire, the
@@ -446,6 +447,133 @@ func c08PairsJob(first *c08Method) Job {
 	}}
 }
 
+// c08EarlyMenu: the argument strings for calls made while the client is not connected.
+var c08EarlyMenu = []string{"a", "x\r\nQUIT :bye", "\nQUIT", "a%"}
+
+// c08RunEarly: one execution of the early-call scenario; it returns the lines of the connection made after the call.
+func c08RunEarly(m *c08Method, a []string, phase string) (wire []string, o *vx.Outcome, cerr error) {
+	o = RunSeq(vx.Options{MaxSteps: 2000000}, func(env *vx.Env) {
+		call := func(c *client.Conn) {
+			vx.Go("early-caller", func() { m.Call(c, a) })
+			vx.Quiesce()
+		}
+		var s *Sess
+		if phase == "before-first-connect" {
+			s, cerr = StartSession(env, "me", nil, call)
+			if cerr != nil {
+				return
+			}
+		} else {
+			s, cerr = StartSession(env, "me", nil, nil)
+			if cerr != nil {
+				return
+			}
+			s.End()
+			call(s.C)
+			if cerr = s.C.Connect(); cerr != nil {
+				return
+			}
+			vx.Quiesce()
+		}
+		s.Feed(":irc.example 001 me :Welcome")
+		wire = s.Wire()
+		s.End()
+	})
+	return
+}
+
+// c08EarlyRest drops the registration lines.
+func c08EarlyRest(wire []string) (rest []string) {
+	for _, l := range wire {
+		if l == "NICK me" || l == "USER ident 12 * :Real Name" {
+			continue
+		}
+		rest = append(rest, l)
+	}
+	return
+}
+
+func c08ReplayEarly(v *Violation, m *c08Method, args []string) int {
+	phase, _ := v.Params["phase"].(string)
+	wire, o, cerr := c08RunEarly(m, args, phase)
+	rest := c08EarlyRest(wire)
+	fmt.Printf("call: %s%s made %s\noutcome: %s (connect error: %v)\nlines of the following connection besides NICK and USER: %s\n", m.Name, c08ClipArgs(args), phase, o.Kind, cerr, joinQ(rest))
+	if o.Kind != "ok" {
+		if o.Crash != nil {
+			fmt.Println(o.Crash.Value)
+			fmt.Println(o.Crash.Stack)
+		}
+		if o.Kind == v.Oracle {
+			fmt.Println("REPRODUCED")
+			return 1
+		}
+	}
+	if len(rest) > 0 {
+		if _, oracle, msg := c08Judge(m, args, strings.Join(rest, "\r\n")+"\r\n"); oracle != "" {
+			fmt.Printf("FINDING oracle=%s %s\n", oracle, msg)
+			if oracle == v.Oracle {
+				fmt.Println("REPRODUCED")
+				return 1
+			}
+		}
+	}
+	fmt.Println("NOT REPRODUCED")
+	return 0
+}
+
+// c08EarlyJob calls method m with every tuple over c08EarlyMenu from a task of
+// its own (a) before the first Connect and (b) between a disconnect and the
+// next Connect, then connects and judges every line of that connection that is
+// not one of the registration lines: whatever the library does with a command
+// issued while there is no connection (block, drop, send later), a line that
+// reaches the server must satisfy the same oracle as a line sent while connected.
+func c08EarlyJob(m *c08Method) Job {
+	name := "early/" + m.Name
+	return Job{Name: name, Cost: m.total(c08EarlyMenu) / 4, Run: func(jc *JobCtx) *JobResult {
+		e := NewEnum(name)
+		total := m.total(c08EarlyMenu)
+		sampled := false
+		for i := 0; i < total; i++ {
+			for _, phase := range []string{"before-first-connect", "between-connects"} {
+				if e.TooMany() || jc.Expired() {
+					e.Incomplete(fmt.Sprintf("stopped at tuple %d of %d", i, total))
+					break
+				}
+				a := m.args(i, c08EarlyMenu)
+				wire, o, cerr := c08RunEarly(m, a, phase)
+				params := c08Params(map[string]interface{}{"method": m.Name, "phase": phase, "early": true}, a)
+				in := fmt.Sprintf("%s%s %s", m.Name, c08ClipArgs(a), phase)
+				e.Case(fmt.Sprintf("%s|%s|%d", m.Name, phase, i))
+				if cerr != nil {
+					e.R.Error = "connect failed in harness: " + cerr.Error()
+					return e.Done()
+				}
+				if o.Kind != "ok" {
+					msg := "execution ended with " + o.Kind
+					if o.Crash != nil {
+						msg = "panic: " + o.Crash.Value + " @ " + o.Crash.Top
+					} else if o.Kind == "deadlock" {
+						msg += "; blocked: " + o.BlockedSig()
+					}
+					e.Fail("early-calls", o.Kind, in, msg, params)
+					continue
+				}
+				rest := c08EarlyRest(wire)
+				if len(rest) > 0 {
+					if _, oracle, msg := c08Judge(m, a, strings.Join(rest, "\r\n")+"\r\n"); oracle != "" {
+						e.Fail("early-calls", oracle, in, msg+" (the call was made "+phase+"; lines of the connection besides NICK and USER: "+joinQ(rest)+")", params)
+					}
+				}
+				if !sampled {
+					sampled = true
+					e.Sample(map[string]interface{}{"call": m.Name + c08ClipArgs(a), "phase": phase, "lines_besides_registration": len(rest)})
+				}
+			}
+		}
+		return e.Done()
+	}}
+}
+
 func c08Jobs(tier string) []Job {
 	sls := []int{-1, 0, 12, 13, 20, 450}
 	if tier == "thorough" {
@@ -461,6 +589,9 @@ func c08Jobs(tier string) []Job {
 	var jobs []Job
 	for mi := range c08Methods {
 		jobs = append(jobs, c08PairsJob(&c08Methods[mi]))
+	}
+	for mi := range c08Methods {
+		jobs = append(jobs, c08EarlyJob(&c08Methods[mi]))
 	}
 	for mi := range c08Methods {
 		m := &c08Methods[mi]
@@ -496,9 +627,9 @@ func c08Jobs(tier string) []Job {
 func init() {
 	Register(&Prop{
 		ID: "C08",
-		Rule: "every exported command method of *client.Conn (28; Privmsgf both with format \"%s\" + menu string and with the menu string as the format) x every tuple of the 14 menu strings (thorough: 20) " +
-			"(empty, plain, CR, LF, CRLF, embedded CR/LF followed by a second command, NUL, \\x01, 600 bytes, 600 bytes + LF + command) in all argument positions (variadic methods with 0, 1 and 2 extra arguments; full product, up to 4 positions for Kick/Ctcp/CtcpReply) " +
-			"x Config.SplitLen in {-1,0,12,13,20,450} (thorough: 15 values) for the splitting methods; one evaluation = one call on a connected client, judged on the raw bytes that reached the server end of the socket before the next quiescence; plus every ordered pair of methods called one after the other on one connection with the same target (SplitLen default and 20), the second call judged; " +
+		Rule: "every exported command method of *client.Conn (28; Privmsgf both with format \"%s\" + menu string and with the menu string as the format) x every tuple of the 15 menu strings (thorough: 21) " +
+			"(empty, plain, CR, LF, CRLF, embedded CR/LF followed by a second command, NUL, \\x01, 600 bytes, 600 bytes + LF + command, a trailing %) in all argument positions (variadic methods with 0, 1 and 2 extra arguments; full product, up to 4 positions for Kick/Ctcp/CtcpReply) " +
+			"x Config.SplitLen in {-1,0,12,13,20,450} (thorough: 15 values) for the splitting methods; one evaluation = one call on a connected client, judged on the raw bytes that reached the server end of the socket before the next quiescence; plus every ordered pair of methods called one after the other on one connection with the same target (SplitLen default and 20), the second call judged; plus every method with every tuple over 4 strings called from a task of its own before the first Connect and between a disconnect and the next Connect, every line of the following connection besides NICK and USER judged; " +
 			"distinct = distinct (method, SplitLen, argument tuple) whose call wrote at least one byte (a call that writes nothing is trivial)",
 		Assumptions: []string{
 			"calls are made one at a time from a single task on a registered, idle connection (no server traffic, PingFreq=0), so the bytes between two quiescent points belong to one call",
@@ -537,6 +668,9 @@ func c08Replay(v *Violation) int {
 			s, _ := x.(string)
 			args = append(args, s)
 		}
+	}
+	if early, _ := v.Params["early"].(bool); early {
+		return c08ReplayEarly(v, m, args)
 	}
 	sl := 0
 	if f, ok := v.Params["splitlen"].(float64); ok {
